@@ -91,4 +91,40 @@ theorem tie_gate_codes :
       some ["ECONF_ERROR", "ECONF_ERROR_FILE_IS_SYM_LINK", "ECONF_NOFILE", "ECONF_PARSING_CALLBACK_FAILED", "ECONF_SUCCESS",
             "ECONF_WRONG_DIR_PERMISSION", "ECONF_WRONG_FILE_PERMISSION", "ECONF_WRONG_GROUP", "ECONF_WRONG_OWNER"] := by decide
 
+/-! ### C10: the read-only API functions have no place where they could modify the object
+
+`gen/frames.py` computes, over clang's AST of lib/*.c, for every function and parameter the places where
+memory reachable from the parameter (member / index / dereference chains, local pointers derived from
+them, results of functions that return a pointer into their argument) is stored into, handed to a function
+that writes through that argument (fixed point over the call graph, libc writers listed), or freed.  The
+fact below is the list of such places for the `econf_file` argument of the getters, the listings, the
+extended getter and the writer: it is empty.  (Both independently written C10 changes – `strsep` on the stored
+comment in the writer, trimming the stored value in place in the extended getter – make it non-empty.) -/
+
+theorem C10_frames :
+    kfMutations = [] ∧
+    readonlyApi = ["econf_getBoolValue", "econf_getBoolValueDef", "econf_getDoubleValue", "econf_getDoubleValueDef", "econf_getExtValue",
+      "econf_getFloatValue", "econf_getFloatValueDef", "econf_getGroups", "econf_getInt64Value", "econf_getInt64ValueDef",
+      "econf_getIntValue", "econf_getIntValueDef", "econf_getKeys", "econf_getPath", "econf_getStringValue", "econf_getStringValueDef",
+      "econf_getUInt64Value", "econf_getUInt64ValueDef", "econf_getUIntValue", "econf_getUIntValueDef", "econf_writeFile"] := by decide
+
+/-- the whole table: through which of its parameters each exported function can write.  Getters and
+    listings write through their result parameters only, setters and readers through the object (pointer)
+    they are given, `econf_mergeFiles` through its result pointer only – not through its two inputs (C03:
+    the merge is non-destructive) –, `econf_writeFile` and `econf_getPath` through none. -/
+theorem api_frames :
+    apiWrites = [("econf_errLocation", [0, 1]), ("econf_freeArray", [0]), ("econf_freeArrayp", [0]), ("econf_freeExtValue", [0]),
+      ("econf_freeFile", [0]), ("econf_freeFilep", [0]), ("econf_getBoolValue", [3]), ("econf_getBoolValueDef", [3]),
+      ("econf_getDoubleValue", [3]), ("econf_getDoubleValueDef", [3]), ("econf_getExtValue", [3]), ("econf_getFloatValue", [3]),
+      ("econf_getFloatValueDef", [3]), ("econf_getGroups", [1, 2]), ("econf_getInt64Value", [3]), ("econf_getInt64ValueDef", [3]),
+      ("econf_getIntValue", [3]), ("econf_getIntValueDef", [3]), ("econf_getKeys", [2, 3]), ("econf_getStringValue", [3]),
+      ("econf_getStringValueDef", [3]), ("econf_getUInt64Value", [3]), ("econf_getUInt64ValueDef", [3]), ("econf_getUIntValue", [3]),
+      ("econf_getUIntValueDef", [3]), ("econf_mergeFiles", [0]), ("econf_newIniFile", [0]), ("econf_newKeyFile", [0]),
+      ("econf_newKeyFile_with_options", [0]), ("econf_readConfig", [0]), ("econf_readConfigWithCallback", [0]), ("econf_readDirs", [0]),
+      ("econf_readDirsHistory", [0, 1]), ("econf_readDirsHistoryWithCallback", [0, 1]), ("econf_readDirsWithCallback", [0]),
+      ("econf_readFile", [0]), ("econf_readFileWithCallback", [0]), ("econf_setBoolValue", [0]), ("econf_setDoubleValue", [0]),
+      ("econf_setFloatValue", [0]), ("econf_setInt64Value", [0]), ("econf_setIntValue", [0]), ("econf_setStringValue", [0]),
+      ("econf_setUInt64Value", [0]), ("econf_setUIntValue", [0]), ("econf_set_comment_tag", [0]), ("econf_set_delimiter_tag", [0])] := by
+  decide
+
 end Econf.Struct
